@@ -34,6 +34,15 @@ impl Check for C02 {
     fn preflight() -> Result<(), String> {
         crate::preflight::decoder_preflight()
     }
+    fn fixed(t: Tier) -> Vec<Case> {
+        prog::sweep_programs(t == Tier::Thorough).into_iter().map(|program| Case { program }).collect()
+    }
+    fn describe_fixed(t: Tier) -> Option<String> {
+        Some(format!(
+            "position sweep: a leading blob of every length 4r, r = 0..255 (every 4-byte residue of the section start modulo 1020), x {} prototype / point-count variants around the packet capacity, followed by a second cloud and a blob",
+            if t == Tier::Thorough { 5 } else { 2 }
+        ))
+    }
     fn gen(s: &mut Src, _t: Tier) -> Case {
         let o = GenOpts { density: 3, max_ops: 5, ..GenOpts::default() };
         Case { program: prog::valid_program(s, &o) }
